@@ -111,6 +111,10 @@ async def run_real(case, tmpdir):
         kw["comms_return_char"] = case["ret"]
     if case.get("ctor_fwc") is not None and plat != "generic":
         kw["failed_when_contains"] = list(case["ctor_fwc"])
+    if case.get("decoy") and plat != "generic":
+        # another connection of the same platform whose marker list is mutated in place: must not leak into ours
+        dconn, _ = make_conn(plat, CliDevice(devplat), stack=stack)
+        dconn.failed_when_contains.append(DECOY_MARKER)
     conn, t = make_conn(plat, dev, stack=stack, **kw)
     obs = {"exc": None, "stall": False}
     spans = []
@@ -124,9 +128,20 @@ async def run_real(case, tmpdir):
         if case.get("warm") and plat != "generic":
             tgt = (priv or "configuration") if case["op"] in CFG_OPS else conn.default_desired_privilege_level
             await _aw(conn.acquire_priv(tgt))
+        if case.get("generic_mode") and plat != "generic":
+            conn._generic_driver_mode = True
         del spans[:]
         n0, w0 = len(dev.exec_log), len(t.writes())
-        obs.update(belief0=conn._current_priv_level.name if plat != "generic" else "", mode0=dev.mode_name(),
+        if case.get("fault"):
+            from harness.simtransport import FaultPlan
+            from scrapli.exceptions import ScrapliTimeout
+            k = case["fault"]["at_line"]
+            if case["fault"]["kind"] == "silent":      # the device stops answering from the return of line k on
+                t.faults.append(FaultPlan(at_write=t.nwrites + 2 * k + 2, action="silent"))
+            else:                                       # the read to the prompt of line k times out
+                t.faults.append(FaultPlan(at_read=t.nreads + 2 * k + 2, action=ScrapliTimeout("injected timeout")))
+        obs.update(generic="1" if case.get("generic_mode") and plat != "generic" else "0",
+                   belief0=conn._current_priv_level.name if plat != "generic" else "", mode0=dev.mode_name(),
                    levels=[(n, p.pattern) for n, p in conn.privilege_levels.items()] if plat != "generic" else [],
                    markers=list(conn.failed_when_contains) if plat != "generic" else [],
                    dpriv=conn.default_desired_privilege_level if plat != "generic" else "")
@@ -234,7 +249,7 @@ def model_request(case, obs, out_table):
     lv = []
     for n, p in obs["levels"]:
         lv += [n, p]
-    return " ".join([op, plat, case["stack"], hx(case.get("ret", "\n")), hxl(obs["markers"]), hx(obs["dpriv"]), hxl(lv), "0",
+    return " ".join([op, plat, case["stack"], hx(case.get("ret", "\n")), hxl(obs["markers"]), hx(obs["dpriv"]), hxl(lv), obs.get("generic", "0"),
                      hx(obs["belief0"]), hx(obs["mode0"]), fw, "1" if case["stop"] else "0", hx(case.get("priv", "")),
                      "1" if case["eager"] else "0", arg, hexl(outs), hxl(moves), navs])
 
@@ -267,11 +282,53 @@ def out_table_for(case, obs, twin_results=None):
 
 
 # ---------- the oracle (never consults the model)
+DECOY_MARKER = "ok"
+_SRC_DEFAULTS = {}
+
+
+def source_default_markers(platform):
+    """the platform's FAILED_WHEN_CONTAINS literal read from the SOURCE (AST), not from any live object"""
+    if platform not in _SRC_DEFAULTS:
+        from gen.c13 import fwc_list
+        _SRC_DEFAULTS[platform] = list(fwc_list(platform))
+    return list(_SRC_DEFAULTS[platform])
+
+
 def markers_in_effect(case, obs):
+    """per-call value, else the value given at construction, else the platform's source default — never the
+    connection object's own (possibly shared or mutated) list"""
     f = case["fwc"]
     if f is None:
-        return list(obs["markers"]) if case["platform"] != "generic" else []
+        if case["platform"] == "generic":
+            return []
+        if case.get("ctor_fwc") is not None:
+            return list(case["ctor_fwc"])
+        return source_default_markers(case["platform"])
     return [f] if isinstance(f, str) else list(f)
+
+
+def oracle_fault(case, obs):
+    """channel failure while line k is being sent (observed on the implementation only — the Lean model has no
+    failing channel): the error surfaces as it is, nothing is written after the failed line, no abort is attempted"""
+    v = []
+    lines, k, ret = expected_lines(case), case["fault"]["at_line"], case.get("ret", "\n").encode()
+    got = [l for _, _, l in obs["log"]]
+    if any(sp for sp, _, _ in obs["log"]):
+        v.append(("fault-nav", f"navigation during a failing run {obs['log']!r}"))
+    want_wire = b"".join(l.encode() + ret for l in lines[:k + 1])
+    if obs["wire"] != want_wire:
+        v.append(("fault-wire", f"bytes written {obs['wire'][-60:]!r} after a channel failure at line {k}; want exactly the lines up to it {want_wire[-60:]!r}"))
+    if case["fault"]["kind"] == "silent":
+        if not obs["stall"]:
+            v.append(("fault-outcome", f"device went silent at line {k} but the call returned / raised {obs.get('exc')}"))
+        if got != lines[:k]:
+            v.append(("fault-log", f"device executed {got!r}, want {lines[:k]!r}"))
+    else:
+        if obs.get("exc") != "ScrapliTimeout":
+            v.append(("fault-outcome", f"injected ScrapliTimeout at line {k} surfaced as {obs.get('exc')} {obs.get('exc_repr')}"))
+        if got != lines[:k + 1]:
+            v.append(("fault-log", f"device executed {got!r}, want {lines[:k + 1]!r}"))
+    return v
 
 
 def oracle(case, obs):
@@ -282,6 +339,8 @@ def oracle(case, obs):
     ret = case.get("ret", "\n")
     normal = not case["eager"] and not case.get("eager_input")
     marks = markers_in_effect(case, obs)
+    if case.get("fault"):
+        return oracle_fault(case, obs)
     if obs["stall"]:
         return [("stall", "driver waits for bytes the device never sends")]
     if obs["exc"] and obs["exc"].startswith("HARNESS"):
@@ -297,6 +356,14 @@ def oracle(case, obs):
         for m, l in nav:
             if l != "" and l not in NAVSET[plat] and not l.startswith("configure session "):
                 v.append(("nav-vocabulary", f"line {l!r} written by acquire_priv is not a navigation command"))
+    # generic_driver_mode: config operations are refused before anything is written; commands go out without navigation
+    if case.get("generic_mode") and plat != "generic":
+        if op in CFG_OPS:
+            if obs["exc"] != "ScrapliPrivilegeError" or obs["log"]:
+                v.append(("generic-mode", f"send_config(s) in generic_driver_mode: outcome {obs['exc']}, lines written {obs['log']!r}"))
+            return v
+        if nav:
+            v.append(("generic-mode", f"navigation {nav!r} in generic_driver_mode"))
     # empty list: nothing but navigation
     if not lines:
         if nonnav:
@@ -491,6 +558,12 @@ def gen_case(rng, idn, stack=None, platform=None):
             case["session"] = rng.choice(["s1", "my-session", "sess_long_name"])
             lv = case["session"]
         case["priv"] = lv
+    if plat != "generic":
+        g = rng.random()
+        if g < 0.04:
+            case["generic_mode"] = True
+        elif g < 0.10:
+            case["decoy"] = True
     return finish_case(case)
 
 
@@ -536,6 +609,44 @@ def special_cases(start_id):
                 c.update(extra)
                 out.append(finish_case(c))
                 idn += 1
+    return out
+
+
+def extra_special_cases(start_id):
+    """generic_driver_mode branches, marker isolation between connections, channel failures at line k"""
+    out = []
+    idn = start_id
+    base = {"eager": False, "eager_input": False, "fwc": None, "fail": [], "outputs": {}, "priv": "", "session": None, "ret": "\n", "warm": False}
+    for plat in NET_PLATFORMS:
+        for stack in ("sync", "async"):
+            for op, extra in (("cmds", {"lines": ["show a", "bad", "show c"], "fail": ["bad"], "stop": True}),
+                              ("cmd", {"text": "show a", "stop": False}),
+                              ("cmdsfile", {"text": "show a\nshow b\n", "stop": False}),
+                              ("cfgs", {"lines": ["a", "b"], "stop": True}),
+                              ("cfg", {"text": "a\nb", "stop": False}),
+                              ("cfgsfile", {"text": "a\n", "stop": False}),
+                              ("cmds", {"lines": [], "stop": False})):
+                c = {**base, "id": idn, "platform": plat, "stack": stack, "op": op, "generic_mode": True}
+                c.update(extra)
+                out.append(finish_case(c))
+                idn += 1
+            # decoy connection whose marker list is mutated in place
+            out.append(finish_case({**base, "id": idn, "platform": plat, "stack": stack, "op": "cfgs", "lines": ["a", "b", "c"], "stop": True,
+                                    "outputs": {"a": "ok", "b": "all ok here"}, "decoy": True}))
+            idn += 1
+            # channel failures (warm, normal mode, non-empty lines so that every line costs two writes and two reads)
+            for op in ("cfgs", "cmds"):
+                for kind in ("silent", "timeout"):
+                    for k in (0, 1, 2):
+                        lv = CONFIG_LEVELS[plat][-1] if op == "cfgs" else ""
+                        c = {**base, "id": idn, "platform": plat, "stack": stack, "op": op, "lines": ["l0", "bad", "l2"], "fail": ["bad"], "stop": k != 1,
+                             "warm": True, "priv": lv, "fault": {"kind": kind, "at_line": k}}
+                        if lv == "@session":
+                            c["session"], c["priv"] = "s1", "s1"
+                        if k == 2:
+                            c["fail"] = []      # otherwise the run stops before line 2
+                        out.append(finish_case(c))
+                        idn += 1
     return out
 
 
@@ -606,7 +717,15 @@ def twin_of(case):
 
 
 def in_domain(case):
+    """domain of the ORACLE (the property's quantifier)"""
     return not case["mode_changing"] and not case["bad_chars"]
+
+
+def model_domain(case):
+    """domain in which model and code must agree (gating): everything the model can express — also lines the device
+    interprets as mode changes; not lines with \\n / \\r / ESC / BS (the device splits or never echoes them) and
+    not injected channel failures (no failing channel in the model)"""
+    return not case["bad_chars"] and not case.get("fault")
 
 
 def evaluate(ck, cases, tmpdir, count=True):
@@ -618,7 +737,7 @@ def evaluate(ck, cases, tmpdir, count=True):
     # model
     reqs, idx = [], []
     for i, (c, o) in enumerate(zip(allc, obs)):
-        if o["stall"] or (o["exc"] or "").startswith("HARNESS") or "log" not in o:
+        if o["stall"] or (o["exc"] or "").startswith("HARNESS") or "log" not in o or c.get("fault"):
             continue
         tw = tw_obs.get(i) if i < len(cases) else None
         tbl = out_table_for(c, o, tw["resps"] if tw and tw.get("resps") else None)
@@ -636,6 +755,7 @@ def evaluate(ck, cases, tmpdir, count=True):
     nviol = 0
     for i, (c, o) in enumerate(zip(cases, obs)):
         dom = in_domain(c)
+        mdom = model_domain(c)
         nl = len(expected_lines(c))
         has_failure = bool(o.get("resps") and any(x[2] for x in o["resps"])) or bool(o.get("merged") and o["merged"][1])
         sample = {k: c.get(k) for k in ("platform", "stack", "op", "priv", "stop", "eager", "eager_input", "fwc", "fail")}
@@ -651,7 +771,9 @@ def evaluate(ck, cases, tmpdir, count=True):
                                         "str" if isinstance(c["fwc"], str) else "empty-list" if not c["fwc"] else "list"),
                           f"level={c.get('priv') or 'default'}" if c["op"] in CFG_OPS else "level=n/a",
                           "failure=" + ("none" if not has_failure else "yes"), f"warm={bool(c.get('warm'))}",
-                          "long-line" if any(len(l) > 990 for l in expected_lines(c)) else "short-lines"))
+                          "long-line" if any(len(l) > 990 for l in expected_lines(c)) else "short-lines",
+                          "generic_driver_mode" if c.get("generic_mode") else "priv-mode",
+                          ("channel-failure=" + c["fault"]["kind"]) if c.get("fault") else "channel-ok"))
         elif count:
             ck.extra["advisory_out_of_domain_cases"] = ck.extra.get("advisory_out_of_domain_cases", 0) + 1
         # oracle
@@ -682,7 +804,7 @@ def evaluate(ck, cases, tmpdir, count=True):
         if mout is None or mr is None and i not in idx:
             continue
         if mr is None:
-            if dom:
+            if mdom and i in idx:
                 ck.disagree("Send model vs drivers", c, "model driver replied bad-op")
             continue
         real_err = "ok" if not o["exc"] else "index" if o["exc"] == "IndexError" else \
@@ -703,12 +825,14 @@ def evaluate(ck, cases, tmpdir, count=True):
         if c["platform"] != "generic" and (o["belief1"], o["mode1"]) != (mr["belief"], mr["mode"]):
             diffs.append(f"belief/mode after impl={(o['belief1'], o['mode1'])} model={(mr['belief'], mr['mode'])}")
         if diffs:
-            if dom:
+            if mdom:
                 ck.disagree("Send model vs drivers", {k: v for k, v in c.items() if k != "outputs"}, "; ".join(diffs))
             else:
                 ck.extra["advisory_out_of_domain_disagreements"] = ck.extra.get("advisory_out_of_domain_disagreements", 0) + 1
-        elif dom:
+        elif mdom:
             ck.traces_validated += 1
+            if not dom:
+                ck.extra["mode_changing_lines_model_agrees"] = ck.extra.get("mode_changing_lines_model_agrees", 0) + 1
     # the Lean device's line discipline vs the Python device on the same write logs
     dev_cases = [o for c, o in zip(cases, obs) if in_domain(c) and "log" in o and not o["stall"] and c.get("ret", "\n") in ("\n", "\r\n")][:1500]
     if dev_cases and mout is not None:
@@ -760,7 +884,9 @@ def run(tier, seed):
                       "privilege navigation is abstract (any lines, any outcome); its correctness is C03/C04",
                       "lines that the device itself interprets as mode changes (end, exit, …) and lines containing \\n, \\r, ESC, BS are outside the "
                       "property's domain: model/code agreement only (advisory)",
-                      "eager: results are whatever was read; only the device log, the wire and flag/result consistency are judged"]
+                      "eager: results are whatever was read; only the device log, the wire and flag/result consistency are judged",
+                      "channel failures (timeout / silent device while line k is sent) are NOT in the Lean model; they are judged on the implementation "
+                      "only (error surfaces unchanged, nothing written after the failed line, no abort attempt)"]
     tmpdir = tempfile.mkdtemp(prefix="c13-")
     fixed_tree = None
     try:
@@ -782,6 +908,7 @@ def run(tier, seed):
     # cases
     cases = load_corpus()
     cases += special_cases(10_000)
+    cases += extra_special_cases(15_000)
     cases += small_scope_cases(tier, 20_000)
     nrand = 1200 if tier == "quick" else 20000
     for k in range(nrand):
